@@ -1352,7 +1352,8 @@ Qed.
 (** ** Expressions of the modelled surface language, SOURCE [-transformed-by T], satisfy the guard
     as soon as their texts and external programs do. *)
 Definition atom_ok (a : tatom) : Prop := match a with TRun g => g_ok g | TReplace sub => sub_ok sub | _ => True end.
-Definition trans_ok (t : trans) : Prop := match t with TAtom a => atom_ok a | TSeq l => Forall atom_ok l end.
+Definition trans_ok (t : trans) : Prop :=
+  match t with TAtom a => atom_ok a | TSeq l => Forall atom_ok l | TChain c => Forall atom_ok (chain_atoms c) end.
 Definition otrans_ok (t : option trans) : Prop := match t with Some t => trans_ok t | None => True end.
 
 Lemma transform_atom_guard : forall a x, atom_ok a -> fresh x -> lfs_ok x ->
@@ -1381,12 +1382,36 @@ Proof.
   intros A P f l H. induction H as [|x l Hx Hl IH]; cbn; [constructor|]. destruct (f x); [constructor; assumption | assumption].
 Qed.
 
+(** a tree of chains applies its atoms in order *)
+Lemma fold_left_flat_map : forall {A B C} (f : C -> B -> C) (h : A -> list B) (l : list A) (x : C),
+  fold_left f (flat_map h l) x = fold_left (fun m a => fold_left f (h a) m) l x.
+Proof. intros A B C f h. induction l as [|a l IH]; intros x; cbn; [reflexivity|]. now rewrite fold_left_app, IH. Qed.
+
+Lemma fold_left_ext_in : forall {A C} (f g : C -> A -> C) (l : list A), Forall (fun a => forall m, f m a = g m a) l ->
+  forall x, fold_left f l x = fold_left g l x.
+Proof. intros A C f g l H. induction H as [|a l Ha Hl IH]; intros x; cbn; [reflexivity|]. now rewrite Ha, IH. Qed.
+
+Fixpoint tchain_ind2 (P : tchain -> Prop) (HA : forall a, P (CAtom a)) (HS : forall l, Forall P l -> P (CSeq l)) (c : tchain) : P c :=
+  match c with
+  | CAtom a => HA a
+  | CSeq l => HS l ((fix go (l : list tchain) : Forall P l :=
+                       match l with [] => Forall_nil P | c' :: l' => Forall_cons c' (tchain_ind2 P HA HS c') (go l') end) l)
+  end.
+
+Lemma chain_transform_atoms : forall c x, chain_transform c x = fold_left (fun m a => transform_atom a m) (chain_atoms c) x.
+Proof.
+  induction c as [a|l IH] using tchain_ind2; intros x; [reflexivity|].
+  cbn [chain_transform chain_atoms]. rewrite fold_left_flat_map. apply fold_left_ext_in.
+  eapply Forall_impl; [|exact IH]. intros c' Hc m. cbn beta. destruct (chain_is_identity c'); [reflexivity | apply Hc].
+Qed.
+
 Lemma transform_guard : forall t x, trans_ok t -> fresh x -> lfs_ok x ->
   fresh (transform t x) /\ lfs_ok (transform t x) /\ leaves_ok (transform t x) = leaves_ok x.
 Proof.
-  intros t x A F K. destruct t as [a|l]; cbn [transform trans_ok] in *.
+  intros t x A F K. destruct t as [a|l|c]; cbn [transform trans_ok] in *.
   - now apply transform_atom_guard.
   - apply fold_atoms_guard; [now apply Forall_filter | exact F | exact K].
+  - rewrite chain_transform_atoms. now apply fold_atoms_guard.
 Qed.
 
 Lemma build_guard : forall base t, otrans_ok t -> fresh base -> lfs_ok base ->
